@@ -55,13 +55,14 @@ FLOORS = {"argument_snapshot": 3000, "probe_compared": 250,
 SHARDS = {"quick": 16, "thorough": 64}
 TIMEOUT = {"quick": 900, "thorough": 6 * 3600}
 FAMILIES = ["place", "chain", "minimise", "bitfield", "objects", "route",
-            "minimise_related", "route_related"]
-RELATED = ("minimise_related", "route_related")
+            "minimise_related", "route_related", "machine_reuse"]
+RELATED = ("minimise_related", "route_related", "machine_reuse")
 
 
 def plan(tier):
     n = 320 if tier == "quick" else 25000
-    return [(f, n if f != "route_related" else n // 8) for f in FAMILIES]
+    return [(f, n // 8 if f in ("route_related", "machine_reuse") else n)
+            for f in FAMILIES]
 
 
 # ------------------------------------------------------------- generators
@@ -140,6 +141,7 @@ def _has_tag(b, tag):
         return False
 
 
+_KEPT_MACHINES = {}
 APP_TAG_SETS = [set(t) for t in c08.TAGSETS]
 
 
@@ -173,6 +175,34 @@ def related_routes(rng):
     return small, big
 
 
+def related_machines(rng):
+    """(first, second): the same application routed twice on the SAME
+    Machine object, which the application edits in between (Machine is a
+    documented plain structure: links die, links are repaired).  Whatever a
+    call leaves on the object it was given must not outlive the edit."""
+    w = h = rng.randint(5, 9)
+    res = {"Cores": 18, "SDRAM": 1000, "SRAM": 100}
+    nv = rng.randint(8, 20)
+    vertices = [(i, {"Cores": 17}) for i in range(nv)]
+    nets = [(rng.randrange(nv), [rng.randrange(nv)
+                                 for _ in range(rng.randint(1, 3))], 1.0)
+            for _ in range(rng.randint(3, 8))]
+    seed = rng.randrange(1 << 30)
+    radius = rng.choice([3, 20])
+    kinds = rng.sample(["mesh", "torus", "half"], 2)
+
+    def version(kind):
+        wl = sorted(par.wrap_links(w, h))
+        dead = {"mesh": wl, "torus": [],
+                "half": [l for i, l in enumerate(wl) if i % 2]}[kind]
+        m = dict(w=w, h=h, res=dict(res), exc={}, dead_chips=[],
+                 dead_links=dead)
+        return dict(machine=m, vertices=vertices, nets=nets, constraints=[],
+                    seed=seed, placer="rand", minimiser="none",
+                    radius=radius, path="chain", reuse_machine=True)
+    return version(kinds[0]), version(kinds[1])
+
+
 def gen(cls, idx, rng, tier):
     history = []
     fams = [f for f in FAMILIES if f not in RELATED]
@@ -185,6 +215,12 @@ def gen(cls, idx, rng, tier):
         history.insert(rng.randrange(len(history) + 1),
                        (("minimise", t1, fn, None), rng.random() < .5))
         probe = ("minimise", t2, rng.choice(["oc", "mt"]), None)
+    elif cls == "machine_reuse":
+        first, second = related_machines(rng)
+        history = history[:3]
+        history.insert(rng.randrange(len(history) + 1),
+                       (("route", first), False))
+        probe = ("route", second)
     elif cls == "route_related":
         small, big = related_routes(rng)
         history = history[:4]
@@ -362,6 +398,17 @@ def execute(desc, ctx=None, mutate=False, seed=0):
         wr = imp("rig.place_and_route.wrapper")
         m = case["machine"]
         machine = par.build_machine(m)
+        if case.get("reuse_machine"):
+            # the application's one Machine object of this size, edited in
+            # place to describe the machine as it is now
+            kept = _KEPT_MACHINES.setdefault((m["w"], m["h"]), machine)
+            if kept is not machine:
+                kept.chip_resources = machine.chip_resources
+                kept.chip_resource_exceptions = \
+                    machine.chip_resource_exceptions
+                kept.dead_chips = machine.dead_chips
+                kept.dead_links = machine.dead_links
+                machine = kept
         vr = par.build_vertices(case["vertices"])
         nets = par.build_nets(case["nets"])
         cd = list(case["constraints"]) + [("reserve", "Cores", 0, 1, None)]
@@ -607,6 +654,7 @@ def setup(tier):
 
 
 def run(case, ctx):
+    _KEPT_MACHINES.clear()
     for k_, t_ in enumerate(c08.TAGSETS):   # undo what a broken tree did
         APP_TAG_SETS[k_].clear()
         APP_TAG_SETS[k_].update(t_)
